@@ -469,7 +469,7 @@ const USES: &[&str] = &[
 
 /// text that is safe after an `@expr`: starts with a byte that cannot continue the expression
 pub fn text_after_expr(r: &mut Rng) -> Vec<u8> {
-    let starts: &[&str] = &[" ", "<", "\n", ",", ")", ". ", ".)", ";", "! ", "'", "\"", "-", "&", "é", "/", ":", "?"];
+    let starts: &[&str] = &[" ", "<", "\n", ",", ")", ". ", ".)", ";", "! ", "'", "\"", "-", "&", "é", "/", ": ", "?"];
     let mut t = r.pick(starts).as_bytes().to_vec();
     t.extend(rand_text(r));
     t
